@@ -130,6 +130,10 @@ fn single(rep: &Reporter, g: &[f64]) {
             if (a == b) != (want == Ordering::Equal) || a.partial_cmp(&b) != Some(want) {
                 rep.violation("single:eq-or-partial_cmp-disagrees-with-numeric-order", json!({"a": format!("{:e}", a.value()), "b": format!("{:e}", b.value())}));
             }
+            let (x, y) = (a.value(), b.value());
+            if [a < b, a <= b, a > b, a >= b] != [x < y, x <= y, x > y, x >= y] || a.max(b).value() != x.max(y) || a.min(b).value() != x.min(y) {
+                rep.violation("single:comparison-operators-or-min-max-disagree-with-numeric-order", json!({"a": format!("{:e}", x), "b": format!("{:e}", y)}));
+            }
             if a.cmp(&b) != b.cmp(&a).reverse() {
                 rep.violation("single:cmp-not-antisymmetric", json!({"a": format!("{:e}", a.value()), "b": format!("{:e}", b.value())}));
             }
@@ -283,6 +287,13 @@ fn multi(rep: &Reporter) {
             if got.map(Ordering::reverse) != b.partial_cmp(a) {
                 rep.violation("multi:domination-not-antisymmetric", json!({"a": format!("{:?}", a.value()), "b": format!("{:?}", b.value())}));
             }
+            // the comparison operators are the same relation as partial_cmp (incomparable => all four false)
+            let ops = [a < b, a <= b, a > b, a >= b];
+            let want_ops = [want == Some(Ordering::Less), matches!(want, Some(Ordering::Less | Ordering::Equal)), want == Some(Ordering::Greater), matches!(want, Some(Ordering::Greater | Ordering::Equal))];
+            if ops != want_ops {
+                let kind = if a.value().len() != b.value().len() { "different-length" } else if want.is_none() { "trade-off" } else { "domination" };
+                rep.violation(&format!("multi:comparison-operators-disagree-with-pareto:{kind}"), json!({"a": format!("{:?}", a.value()), "b": format!("{:?}", b.value()), "[<, <=, >, >=]": ops, "pareto": format!("{want:?}")}));
+            }
         }
     }
     rep.cases(pairs);
@@ -318,7 +329,7 @@ fn multi(rep: &Reporter) {
 
 fn main() {
     let rep = Reporter::from_args("C09");
-    rep.rule("SingleObjective: construction over a grid of special doubles (zeros, subnormals, extremes, infinities, six NaN encodings) plus random bit patterns; all pairs and triples of the constructed values for cmp/eq/partial_cmp (numeric agreement, antisymmetry, transitivity); random slices through sort/min/max; every derived operator (+ - unary- on all pairs, * and / against 16 finite-or-+inf scalars) with the result classified. MultiObjective: construction, all pairs of all vectors of length 0..3 over a 7-value grid against a reference Pareto relation, equality agreement, antisymmetry, transitivity on all triples up to length 2 and sampled triples. distinct_nontrivial = distinct value pairs compared");
+    rep.rule("SingleObjective: construction over a grid of special doubles (zeros, subnormals, extremes, infinities, six NaN encodings) plus random bit patterns; all pairs and triples of the constructed values for cmp/eq/partial_cmp (numeric agreement, antisymmetry, transitivity); random slices through sort/min/max; every derived operator (+ - unary- on all pairs, * and / against 16 finite-or-+inf scalars) with the result classified. MultiObjective: construction, all pairs of all vectors of length 0..3 over a 7-value grid against a reference Pareto relation, equality agreement, the four comparison operators as the same relation (all false for incomparable vectors), antisymmetry, transitivity on all triples up to length 2 and sampled triples. distinct_nontrivial = distinct value pairs compared");
     rep.assume("scalars passed to * and / are finite or +inf (a NaN or -inf scalar is the caller's value, not the library's)");
     let mut rng = SplitMix64::new(rep.seed).fork(0xC09_1);
     let g = grid(&mut rng, rep.tier.pick(30, 600));
